@@ -19,11 +19,33 @@ use core::{ffi::c_char, fmt, mem::MaybeUninit};
 use aranya_capi_core::{write_c_str, WriteCStrError};
 use mcx::{json, Args, Level, Report};
 
-struct Frags<'a>(&'a [&'a str]);
+/// How a fragment reaches the writer: 0 = one `write_str`; 1 = one `write_char` per character;
+/// 2 = formatted with width/fill (`{:*>w$}`, w = chars + 2: the fill arrives through `write_char`);
+/// 3 = through `format_args!("{}{}", first char, rest)`.
+struct Frags<'a>(&'a [&'a str], &'a [u8]);
 impl fmt::Display for Frags<'_> {
     fn fmt(&self, f: &mut fmt::Formatter<'_>) -> fmt::Result {
-        for s in self.0 {
-            f.write_str(s)?;
+        use fmt::Write as _;
+        for (i, s) in self.0.iter().enumerate() {
+            match self.1.get(i).copied().unwrap_or(0) {
+                1 => {
+                    for c in s.chars() {
+                        f.write_char(c)?;
+                    }
+                }
+                2 => {
+                    let w = s.chars().count() + 2;
+                    write!(f, "{:*>w$}", s, w = w)?;
+                }
+                3 => {
+                    let mut it = s.chars();
+                    match it.next() {
+                        Some(c) => write!(f, "{}{}", c, it.as_str())?,
+                        None => write!(f, "{}", "")?,
+                    }
+                }
+                _ => f.write_str(s)?,
+            }
         }
         Ok(())
     }
@@ -37,6 +59,7 @@ pub fn run(args: &Args) {
     let mut rep = Report::new(args, Level::Exploration);
     let max_chars = args.tier.pick(6, 9);
     let max_frags = args.tier.pick(3, 4);
+    let mode_chars = args.tier.pick(4, 6);
     let mut texts: Vec<String> = vec![String::new()];
     let mut frontier = vec![String::new()];
     for _ in 0..max_chars {
@@ -79,6 +102,20 @@ pub fn run(args: &Args) {
                 frs.push(&text[chars[prev]..]);
                 for size in 0..=text.len() + 2 {
                     one(&mut rep, text, &frs, size, &mut distinct);
+                }
+                if text.chars().count() <= mode_chars {
+                    // every way the fragments can reach the writer (write_str / write_char / padded / format_args)
+                    mcx::enumerate::sequences(4, frs.len(), |ms| {
+                        if ms.iter().all(|&m| m == 0) {
+                            return;
+                        }
+                        let modes: Vec<u8> = ms.iter().map(|&m| m as u8).collect();
+                        let rendered_len = Frags(&frs, &modes).to_string().len();
+                        for size in 0..=rendered_len + 2 {
+                            one_modes(&mut rep, text, &frs, &modes, size, &mut distinct);
+                            rep.count("mode_cases", 1);
+                        }
+                    });
                 }
                 // next non-decreasing cut vector
                 let mut i = cuts.len();
@@ -126,6 +163,13 @@ pub fn run(args: &Args) {
 }
 
 fn one(rep: &mut Report, text: &str, frs: &[&str], size: usize, distinct: &mut std::collections::BTreeSet<(String, usize)>) {
+    one_modes(rep, text, frs, &[], size, distinct)
+}
+
+fn one_modes(rep: &mut Report, text0: &str, frs: &[&str], modes: &[u8], size: usize, distinct: &mut std::collections::BTreeSet<(String, usize)>) {
+    // the reference text is what the same Display produces into a String (an independent writer)
+    let rendered = Frags(frs, modes).to_string();
+    let text: &str = if modes.is_empty() { text0 } else { &rendered };
     rep.count("evaluations", 1);
     if !text.is_empty() {
         distinct.insert((text.to_string(), size));
@@ -139,10 +183,10 @@ fn one(rep: &mut Report, text: &str, frs: &[&str], size: usize, distinct: &mut s
         let buf = &mut mem[GUARD..GUARD + size];
         // SAFETY: u8 and MaybeUninit<c_char> have the same layout.
         let dst = unsafe { &mut *(buf as *mut [u8] as *mut [MaybeUninit<c_char>]) };
-        mcx::catch(|| write_c_str(dst, &Frags(frs), &mut n))
+        mcx::catch(|| write_c_str(dst, &Frags(frs, modes), &mut n))
     };
-    let key = || format!("text={text:?} frags={frs:?} size={size}");
-    let replay = || json!({"text": text, "fragments": frs, "size": size});
+    let key = || format!("text={text:?} frags={frs:?} modes={modes:?} size={size}");
+    let replay = || json!({"text": text0, "fragments": frs, "modes": modes, "size": size});
     let guards_ok = mem[..GUARD].iter().all(|&b| b == GFILL) && mem[GUARD + size..].iter().all(|&b| b == GFILL);
     if !guards_ok {
         rep.violation(key(), "guard bytes around the buffer were modified", replay());
